@@ -63,7 +63,13 @@ pub fn gen_sys(ctx: &mut Context, rng: &mut Rng, cfg: &SysCfg) -> TransitionSyst
     for k in 0..n_inputs {
         let w = *rng.pick(&cfg.widths);
         let name = if cfg.anon_inputs && rng.chance(1, 2) {
-            if rng.chance(3, 4) { format!("_input_{k}") } else { format!("_state_{k}") }
+            match rng.below(6) {
+                0..=2 => format!("_input_{k}"),
+                3 => format!("_state_{k}"),
+                // NOT anonymous: the prefix occurs, but not at the start of the name
+                4 => format!("data_input_{k}"),
+                _ => format!("next_state_{k}"),
+            }
         } else {
             format!("i{k}")
         };
